@@ -526,7 +526,7 @@ func (d *brokerDrv) Step(line string) string {
 			case "pubrec":
 				pk = &packets.Pubrec{Version: c.Version, PacketID: e.id, Code: code, Properties: &packets.Properties{}}
 				e.acked = true
-				if code >= 0x80 {
+				if code >= 0x80 && c.Version == packets.Version5 { // v3.1.1 has no reason codes: the packet is a plain PUBREC
 					e.comp = true
 				}
 			case "pubcomp":
